@@ -914,7 +914,9 @@ class Interp:
             if e is None:
                 # unknown numeric exponent: dimension unknown unless base is dimensionless
                 if l.dim == {}:
-                    return V("q", dim={}, unit=None, val=None)
+                    tainted = l.unit is not None and any(a_.startswith("U:") for a_ in l.unit)
+                    # a scaled dimensionless base stays scale dependent for every non-zero power
+                    return V("q", dim={}, unit=l.unit if tainted else None, val=None)
                 return self.top(node, "unknown exponent")
             d = dim_pow(l.dim, e) if l.dim is not None else None
             if d is None:
@@ -1119,6 +1121,9 @@ class Interp:
                 out = None
                 for y in x.items:
                     out = y if out is None else join(out, y)
+                    if fn in ("array", "asarray") and y.kind == "q" and y.unit and any(a_.startswith("U:") for a_ in y.unit) and y.dim == {}:
+                        # numpy builds the array from the bare magnitudes of the (dimensionless but scaled) elements
+                        self.raw_sink(y, node, "%s.%s" % (modname, fn))
                 x = out if out is not None else TOP
             return V("q", dim=x.dim, unit=x.unit, val=None) if x.kind == "q" else x
         if fn in ("any", "all", "isnan", "isfinite"):
